@@ -63,6 +63,16 @@ ENERGY_MODULE = "EmuVerif.Props.C13Energy"   # the C05 <-> C11 bridge: energy = 
 ENERGY_AUDIT = "Audit/C13Energy.lean"
 RTOL_TAPE = 1e-12
 RTOL_ORACLE = 1e-9
+# emu-mps computes <H^2> with the MPO product H@H (zip_right: QR + eigh of Gram matrices). Whatever the requested
+# truncation precision, that product carries a binary64 accuracy floor of about sqrt(eps) relative to |H^2| (measured:
+# 1.3e-9 relative Frobenius error of the dense H@H at n = 8, identical bond dimensions at precision 1e-5 and 1e-12), so
+# the second moment / variance of an MPS cannot be demanded to 1e-9; 1e-7 is ~7 sqrt(eps) and still four orders of
+# magnitude below the smallest deviation any changed operator/state produces (thorough seed 13 met 1.9e-9: false alarm).
+RTOL_MPS_H2 = 1e-7
+
+
+def _mps_tol(name: str) -> float:
+    return RTOL_MPS_H2 if ("second moment" in name or "variance" in name) else RTOL_ORACLE
 STATE = {"compat": False}
 
 
@@ -380,9 +390,9 @@ def oracle_mps(rep: Report, rng, count: int) -> None:
             sc = out["_scale"] if name in ("energy", "second moment", "variance") else 1.0
             err = float(np.abs(np.asarray(got) - np.asarray(ref)).max()) / sc
             worst = max(worst, err)
-            if not err <= RTOL_ORACLE:
+            if not err <= _mps_tol(name):
                 rep.fail(f"emu-mps {name}: differs from the dense definition on the contracted normalised state by {err:.3e} "
-                         f"> {RTOL_ORACLE:.0e}", dict(data, observable=name))
+                         f"> {_mps_tol(name):.0e}", dict(data, observable=name))
         occ, cor = out["occupation"][0], out["correlation"][0]
         ent, var = float(out["entanglement entropy"][0]), float(out["variance"][0])
         if (occ.min() < -1e-9 or occ.max() > 1 + 1e-9 or cor.min() < -1e-9 or cor.max() > 1 + 1e-9
@@ -496,9 +506,9 @@ def oracle_mps_centres(rep: Report, rng, count: int) -> None:
                     continue
                 err = float(np.abs(np.asarray(val[0]) - np.asarray(val[1])).max()) / out["_scale"]
                 worst = max(worst, err)
-                if not err <= RTOL_ORACLE:
+                if not err <= _mps_tol(name):
                     rep.fail(f"emu-mps {name} (d={d}, n={n}, recorded orthogonality centre {out['_centre']} set by {prep[0]}): differs from the "
-                             f"dense definition by {err:.3e} > {RTOL_ORACLE:.0e}", dict(data, observable=name))
+                             f"dense definition by {err:.3e} > {_mps_tol(name):.0e}", dict(data, observable=name))
     rep.extra["oracle_mps_centres_max_err"] = max(worst, rep.extra.get("oracle_mps_centres_max_err", 0.0))
 
 
@@ -597,9 +607,9 @@ def oracle_mps_order(rep: Report, rng, count: int) -> None:
                 s_ = sc if name in ("energy", "second moment", "variance") else 1.0
                 err = float(np.abs(np.asarray(val) - np.asarray(ref[name])).max()) / s_
                 worst = max(worst, err)
-                if not err <= RTOL_ORACLE:
+                if not err <= _mps_tol(name):
                     rep.fail(f"emu-mps {name} evaluated in the callback order {order}: differs from the dense definition by {err:.3e} "
-                             f"> {RTOL_ORACLE:.0e} (the result depends on what ran before it on the shared state)", dict(data, observable=name))
+                             f"> {_mps_tol(name):.0e} (the result depends on what ran before it on the shared state)", dict(data, observable=name))
     rep.extra["oracle_mps_order_max_err"] = max(worst, rep.extra.get("oracle_mps_order_max_err", 0.0))
 
 
